@@ -164,3 +164,91 @@ pub fn date_add_months(years_max: i64) {
     vcover!(years > 0 && months > 0 && got.year() as i64 == date.year() as i64 + years + 1);
     core::mem::forget(r); core::mem::forget(cfg);
 }
+
+// ---------------------------------------------------------------- month arithmetic: further regions
+/// date - (Y years M months) inside the region where no month borrow is needed (month - M >= 1) and the day exists
+/// everywhere (day <= 28): day kept, month index moved back by 12Y+M
+pub fn date_sub_months(years_max: i64) {
+    let cfg = blank_config();
+    let date = any_date();
+    let years: i64 = vany();
+    let months: i64 = vany();
+    vassume(years >= 0 && years <= years_max && months >= 0 && months <= 11 && years + months > 0);
+    vassume(date.day() <= 28);
+    vassume(date.month() as i64 - months >= 1);
+    vassume(date.year() as i64 - years >= 1);
+    let r = DateItem(date, tz0()).calculate(&cfg, true, &DurationItem(Duration::days(365 * years + 30 * months)), OperationType::Sub);
+    assert!(r.is_some());
+    let got = date_of(r.as_ref().unwrap());
+    assert!(got.day() == date.day());
+    assert!(12 * got.year() as i64 + got.month() as i64 == 12 * date.year() as i64 + date.month() as i64 - 12 * years - months);
+    vcover!(years > 0 && months > 0);
+    core::mem::forget(r); core::mem::forget(cfg);
+}
+
+/// KNOWN DEFECT REGION: date + M months landing on December (month + M is a multiple of 12), day <= 28
+pub fn date_add_months_december() {
+    let cfg = blank_config();
+    let date = any_date();
+    let months: i64 = vany();
+    vassume(months >= 1 && months <= 11 && date.day() <= 28 && date.year() < 9998);
+    vassume((date.month() as i64 + months) % 12 == 0);
+    let r = DateItem(date, tz0()).calculate(&cfg, true, &DurationItem(Duration::days(30 * months)), OperationType::Add);
+    assert!(r.is_some());
+    let got = date_of(r.as_ref().unwrap());
+    assert!(got.day() == date.day() && got.month() == 12 && got.year() == date.year());
+    vcover!(true);
+    core::mem::forget(r); core::mem::forget(cfg);
+}
+
+/// KNOWN DEFECT REGION: date + M months from day 29..31 (the target month may be shorter): must not panic
+pub fn date_add_months_day_overflow() {
+    let cfg = blank_config();
+    let date = any_date();
+    let months: i64 = vany();
+    vassume(months >= 1 && months <= 11 && date.day() >= 29 && date.year() < 9998);
+    vassume((date.month() as i64 + months) % 12 != 0);
+    let r = DateItem(date, tz0()).calculate(&cfg, true, &DurationItem(Duration::days(30 * months)), OperationType::Add);
+    vcover!(r.is_some());
+    core::mem::forget(r); core::mem::forget(cfg);
+}
+
+/// KNOWN DEFECT REGION: date - M months across a year boundary (month - M <= 0), day <= 28
+pub fn date_sub_months_borrow() {
+    let cfg = blank_config();
+    let date = any_date();
+    let months: i64 = vany();
+    vassume(months >= 1 && months <= 11 && date.day() <= 28 && date.year() > 2);
+    vassume(date.month() as i64 - months <= 0);
+    let r = DateItem(date, tz0()).calculate(&cfg, true, &DurationItem(Duration::days(30 * months)), OperationType::Sub);
+    assert!(r.is_some());
+    let got = date_of(r.as_ref().unwrap());
+    assert!(12 * got.year() as i64 + got.month() as i64 == 12 * date.year() as i64 + date.month() as i64 - months);
+    vcover!(true);
+    core::mem::forget(r); core::mem::forget(cfg);
+}
+
+/// KNOWN DEFECT REGION: date + n days for 30 <= n < 60 (a day count, not a month count): exactly n days away
+pub fn date_days_30_to_59() {
+    let cfg = blank_config();
+    let date = any_date();
+    let n: i64 = vany();
+    vassume(n >= 30 && n < 60 && date.day() <= 28 && date.month() <= 10 && date.year() < 9998);
+    let r = DateItem(date, tz0()).calculate(&cfg, true, &DurationItem(Duration::days(n)), OperationType::Add);
+    assert!(r.is_some());
+    let got = date_of(r.as_ref().unwrap());
+    assert!(got.signed_duration_since(date).num_days() == n);
+    vcover!(true);
+    core::mem::forget(r); core::mem::forget(cfg);
+}
+
+/// KNOWN DEFECT REGION: date + Y years for a Y beyond chrono's year range: must not panic
+pub fn date_add_huge_years() {
+    let cfg = blank_config();
+    let date = any_date();
+    let years: i64 = vany();
+    vassume(years >= 262143 && years <= 400000 && date.day() <= 28);
+    let r = DateItem(date, tz0()).calculate(&cfg, true, &DurationItem(Duration::days(365 * years)), OperationType::Add);
+    vcover!(r.is_none());
+    core::mem::forget(r); core::mem::forget(cfg);
+}
